@@ -359,6 +359,7 @@ pub struct RunOut {
     /// the clock when the run returned, and whether the harness ended it (iteration budget of the simulated environment used up)
     pub end_ns: u64,
     pub budget_hit: bool,
+    pub stamp_fails: Vec<String>,
 }
 
 impl RunOut {
@@ -396,7 +397,11 @@ pub trait Env {
 #[derive(Default)]
 pub struct Log {
     pub events: Vec<Ev>,
+    /// probes whose `sent` stamp is not the time at which they were handed to the network
+    pub stamp_fails: Vec<String>,
 }
+/// what a refused bind/connect attempt (address in use) costs on the virtual clock
+pub const IN_USE_COST_NS: u64 = 250_000;
 pub enum Ev { Clock(u64), Send(Probe, SendO), Recv(RecvO), Publish(RoundOut) }
 
 pub struct ScriptNet {
@@ -411,8 +416,15 @@ fn drain_clock(log: &mut Log) {
 impl Network for ScriptNet {
     fn send_probe(&mut self, probe: Probe) -> Result<(), Error> {
         drain_clock(&mut self.log.borrow_mut());
+        let handed_over = vclock::now();
+        if vclock::to_ns(probe.sent) != handed_over && self.log.borrow().stamp_fails.len() < 4 {
+            self.log.borrow_mut().stamp_fails.push(format!("seq={},ttl={},sent={},handed_over={}", probe.sequence.0, probe.ttl.0, vclock::to_ns(probe.sent), handed_over));
+        }
         let o = self.env.borrow_mut().on_send(&probe);
         let _ = vclock::take_readings();
+        if o == SendO::InUse {
+            vclock::advance(IN_USE_COST_NS);
+        }
         self.log.borrow_mut().events.push(Ev::Send(probe, o.clone()));
         match o {
             SendO::Sent => Ok(()),
@@ -443,7 +455,7 @@ pub fn exec(cfg: &Cfg, env: Box<dyn Env>, t0: u64, tick: u64) -> RunOut {
     let tracer = match cfg.build() {
         Ok(t) => t,
         Err(e) => {
-            return RunOut { result: format!("err:{}", ErrK::of(&e).tok()), sends: vec![], rounds: vec![], iters: vec![], t0, snapshot: None, error_text: None, error_after_clear: None, end_ns: t0, budget_hit: false };
+            return RunOut { result: format!("err:{}", ErrK::of(&e).tok()), sends: vec![], rounds: vec![], iters: vec![], t0, snapshot: None, error_text: None, error_after_clear: None, end_ns: t0, budget_hit: false, stamp_fails: vec![] };
         }
     };
     let _ = vclock::take_readings();
@@ -529,9 +541,10 @@ pub fn exec(cfg: &Cfg, env: Box<dyn Env>, t0: u64, tick: u64) -> RunOut {
     if phase != 0 || !cur.clk.is_empty() || !cur.sends.is_empty() {
         iters.push(cur);
     }
+    let stamp_fails = std::mem::take(&mut lg.stamp_fails);
     let snapshot = Some(tracer.snapshot());
     let error_after_clear = if result.starts_with("err:") { tracer.clear(); Some(tracer.snapshot().error().map(ToString::to_string)) } else { None };
-    RunOut { result, sends, rounds, iters, t0: t0_seen.unwrap_or(t0), snapshot, error_text, error_after_clear, end_ns, budget_hit: crate::simnet::BUDGET_HIT.swap(false, std::sync::atomic::Ordering::SeqCst) }
+    RunOut { result, sends, rounds, iters, t0: t0_seen.unwrap_or(t0), snapshot, error_text, error_after_clear, end_ns, budget_hit: crate::simnet::BUDGET_HIT.swap(false, std::sync::atomic::Ordering::SeqCst), stamp_fails }
 }
 
 /// Replay environment: feeds a recorded trace back (exhaustion => timeouts / sent).
